@@ -135,6 +135,12 @@ def run(repo: Repo, chk: Check, thorough: bool = False) -> None:
         recv = c.func.value if isinstance(c.func, ast.Attribute) else None
         if isinstance(recv, ast.Name) and single_value(f, recv.id) is not None:
             recv = single_value(f, recv.id)      # `page_path = build_directory.joinpath(...)` ; `page_path.open(...)`
+        if isinstance(recv, ast.Call) and isinstance(recv.func, ast.Attribute) and norm(recv.func.value) == 'self' and recv.func.attr.startswith('_'):
+            # the path computed by a private method of the writer: `self._pagePath(ob).open(...)` - what it returns is the path
+            for g_ in [g for g in repo.funcs.values() if g.cls is f.cls and g.name == recv.func.attr]:
+                rv = [r.value for r in g_.walk() if isinstance(r, ast.Return) and r.value is not None]
+                if len(rv) == 1:
+                    recv = rv[0]
         tgt = norm(recv) if recv is not None else ''
         jp = recv if isinstance(recv, ast.Call) and call_name(recv) == 'joinpath' else None
         arg = jp.args[0] if jp is not None and len(jp.args) == 1 else None
@@ -220,7 +226,9 @@ def run(repo: Repo, chk: Check, thorough: bool = False) -> None:
         raise AnalysisError('R11.2: HTMLTranslator.starttag no longer prefixes ids with rst-')
     # ids and hrefs must be prefixed by the SAME rule, or a reference and its target drift apart (`rst-rst-primer` vs `#rst-primer`): every place
     # that adds the prefix does so under the "not already prefixed" test
-    adds = [n for n in st_scope + ([x for x in ast.walk(trc.methods['footnote_backrefs'].node)] if 'footnote_backrefs' in trc.methods else [])
+    # (a module-level private helper that adds the prefix - `_rst_prefixed(name)` - is one more such place)
+    pref_helpers = [x for g_ in repo.funcs.values() if g_.mod is trc.mod and g_.cls is None and g_.outer is None and g_.name.startswith('_') for x in g_.walk()]
+    adds = [n for n in {id(x): x for x in st_scope + pref_helpers + ([x for x in ast.walk(trc.methods['footnote_backrefs'].node)] if 'footnote_backrefs' in trc.methods else [])}.values()
             if isinstance(n, ast.JoinedStr) and any(isinstance(v, ast.Constant) and isinstance(v.value, str) and v.value.endswith('rst-') for v in n.values)]
     if len(adds) < 3:
         raise AnalysisError(f'R11.2: only {len(adds)} places add the rst- prefix in HTMLTranslator (4 confirmed)')
@@ -240,7 +248,7 @@ def run(repo: Repo, chk: Check, thorough: bool = False) -> None:
                'references to it say `#rst-primer`', f'pydoctor/node2stan.py:{a_.lineno}')
     for hook, what in sorted(DOCUTILS_RAW_HREF_HOOKS.items()):
         ov = trc.methods.get(hook)
-        okh = ov is not None and any(isinstance(c_, ast.Constant) and isinstance(c_.value, str) and 'rst-' in c_.value for c_ in ast.walk(ov.node))
+        okh = ov is not None and any(isinstance(c_, ast.Constant) and isinstance(c_.value, str) and 'rst-' in c_.value for c_ in _scope_nodes(repo, ov))
         chk.ob('R11.2', f'node2stan.HTMLTranslator.{hook} :: raw hrefs use the prefixed ids', okh,
                'overridden, same rst- rule as starttag()' if okh else
                f'{what} are built by docutils as raw `href="#<id>"` strings while the ids themselves are emitted as `rst-<id>` by starttag(): a reference '
@@ -538,13 +546,13 @@ def run(repo: Repo, chk: Check, thorough: bool = False) -> None:
     chk.ob('R11.5', 'pydoctor.linker.taglink :: strips exactly the page url', ok, detail, tl.loc)
     href = [c for c in calls_in(tl) if any(k.arg == 'href' for k in c.keywords)]
     # `url = o.url`, or `url = _helper(o.url, ...)` with a private helper of the module (the shortening extracted)
-    urlvars = {t.id for n in tl.walk() if isinstance(n, ast.Assign) and
-               ((isinstance(n.value, ast.Attribute) and n.value.attr == 'url') or
-                (isinstance(n.value, ast.Call) and isinstance(n.value.func, ast.Name) and n.value.func.id.startswith('_') and n.value.args and
-                 isinstance(n.value.args[0], ast.Attribute) and n.value.args[0].attr == 'url' and f'pydoctor.linker.{n.value.func.id}' in repo.funcs))
-               for t in n.targets if isinstance(t, ast.Name)}
-    ok = bool(href) and all(isinstance(next(k.value for k in c.keywords if k.arg == 'href'), ast.Name) and
-                            next(k.value for k in c.keywords if k.arg == 'href').id in urlvars for c in href)
+    def _is_url_expr(v: ast.AST) -> bool:
+        return (isinstance(v, ast.Attribute) and v.attr == 'url') or \
+            (isinstance(v, ast.Call) and isinstance(v.func, ast.Name) and v.func.id.startswith('_') and bool(v.args) and
+             isinstance(v.args[0], ast.Attribute) and v.args[0].attr == 'url' and f'pydoctor.linker.{v.func.id}' in repo.funcs)
+    urlvars = {t.id for n in tl.walk() if isinstance(n, ast.Assign) and _is_url_expr(n.value) for t in n.targets if isinstance(t, ast.Name)}
+    hv = [next(k.value for k in c.keywords if k.arg == 'href') for c in href]
+    ok = bool(href) and all((isinstance(v, ast.Name) and v.id in urlvars) or _is_url_expr(v) for v in hv)
     chk.ob('R11.5', 'pydoctor.linker.taglink :: href is the (shortened) object url', ok, 'href=url with url = o.url' if ok else
            'href is not built from Documentable.url', tl.loc)
     # ... and what the callers pass as "the page this link is written on": where it is the url of an object, it is the url of a PAGE - `<x>.url` of a
